@@ -3,7 +3,7 @@ import itertools
 import operator
 import numpy as np
 from . import common as C
-from .prop_c01 import _pyitem, _pycols, col_selectors
+from .prop_c01 import _pyitem, _pycols, col_selectors, lean_cols
 
 PID = 'C02'
 PARALLEL = True
@@ -48,12 +48,26 @@ def _base(n, nch, dtype, mode='ids'):
     return (ids - shift).astype(dtype)
 
 
+ARGKINDS = ['py', 'py', 'np:float32', 'np:int32', 'np:int64', 'np:float64', '0d:int64', '0d:float32', 'np:int16']
+
+
+def _arg(step):
+    """the scalar operand as the caller supplies it: a Python number, a NumPy scalar or a 0-d array"""
+    a, kind = step['arg'], step.get('argkind', 'py')
+    if kind == 'py':
+        return a
+    dt = np.dtype(kind[3:])
+    if dt.kind in 'iu' and (isinstance(a, float) or not (np.iinfo(dt).min <= a <= np.iinfo(dt).max)):
+        return a                       # a fractional / too large scalar stays a Python number
+    return dt.type(a) if kind.startswith('np:') else np.array(a, dtype=dt)
+
+
 def _apply(x, step):
     if step['k'] == 'cols':
-        return x[:, _pycols(step['cols'], 'py')]
+        return x[:, _pycols(step['cols'], step.get('colkind', 'py'))]
     if step['op'] in UN:
         return UN[step['op']](x)
-    return BIN[step['op']](x, step['arg'])
+    return BIN[step['op']](x, _arg(step))
 
 
 def _reader(case, d):
@@ -105,7 +119,7 @@ def impl(case):
         for k, s in enumerate(case['steps']):
             if s['k'] in ('derive', 'cols'):
                 src = readers[s['from']]
-                new = _apply(src, s) if s['k'] == 'derive' else src[:, _pycols(s['cols'], 'py')]
+                new = _apply(src, s)
                 if not isinstance(new, BaseEphysReader):
                     return dict(not_reader=k, type=type(new).__name__)
                 readers.append(new)
@@ -147,9 +161,9 @@ def model_query(case, impl_res):
         if s['k'] == 'derive':
             steps.append(dict(k='derive', tok=k, **{'from': s['from']}))
         elif s['k'] == 'cols':
-            steps.append(dict(k='cols', cols=s['cols'], **{'from': s['from']}))
+            steps.append(dict(k='cols', cols=lean_cols(s['cols']), **{'from': s['from']}))
         else:
-            steps.append(dict(k='eval', reader=s['reader'], item=s['item'], cols=s.get('cols')))
+            steps.append(dict(k='eval', reader=s['reader'], item=s['item'], cols=lean_cols(s.get('cols'))))
     return dict(p=PID, op='program', parts=case['parts'], nch=case['nch'], steps=steps)
 
 
@@ -200,6 +214,9 @@ def tally(rep, case, impl_res, ans):
     rep.count('backend:' + case['backend'])
     rep.count('dtype:' + case['dtype'])
     rep.count('base_values:' + case.get('base', 'ids'))
+    for st in case['steps']:
+        if st['k'] == 'derive' and 'arg' in st:
+            rep.count('operand:' + st.get('argkind', 'py') + ('(left)' if st['op'].startswith('r') else '(right)'))
     for s in case['steps']:
         if s['k'] == 'derive':
             rep.count('op:' + s['op'])
@@ -309,7 +326,7 @@ def gen(tier, rng):
                         if nch_cur == 0:
                             ok_chain = False
                             break
-                        steps.append({'k': 'cols', 'from': cur, 'cols': c})
+                        steps.append({'k': 'cols', 'from': cur, 'cols': c, 'colkind': ['py', 'np'][(k + j) % 2]})
                     elif op in UN:
                         steps.append({'k': 'derive', 'from': cur, 'op': op})
                     else:
@@ -317,7 +334,8 @@ def gen(tier, rng):
                         if not args:
                             ok_chain = False
                             break
-                        steps.append({'k': 'derive', 'from': cur, 'op': op, 'arg': args[(k + j) % len(args)]})
+                        steps.append({'k': 'derive', 'from': cur, 'op': op, 'arg': args[(k + j) % len(args)],
+                                      'argkind': ARGKINDS[(k // 3 + j) % len(ARGKINDS)]})
                     cur += 1
                     # re-evaluate the new reader AND every ancestor after each derivation
                     for rdr in range(cur + 1):
@@ -344,14 +362,14 @@ def gen(tier, rng):
                 w = len(np.arange(widths[src])[_pycols(c, 'py')])
                 if w == 0:
                     continue
-                steps.append({'k': 'cols', 'from': src, 'cols': c}); widths.append(w)
+                steps.append({'k': 'cols', 'from': src, 'cols': c, 'colkind': rng.pick(['py', 'np'])}); widths.append(w)
             elif op in UN:
                 steps.append({'k': 'derive', 'from': src, 'op': op}); widths.append(widths[src])
             else:
                 args = scalar_args(op, dtype)
                 if not args:
                     continue
-                steps.append({'k': 'derive', 'from': src, 'op': op, 'arg': rng.pick(args)}); widths.append(widths[src])
+                steps.append({'k': 'derive', 'from': src, 'op': op, 'arg': rng.pick(args), 'argkind': rng.pick(ARGKINDS)}); widths.append(widths[src])
             for _ in range(rng.randrange(1, 4)):
                 rdr = rng.randrange(len(widths))
                 it = rng.pick(items_for(n, rng, 2, backend == 'cbin'))
